@@ -24,6 +24,10 @@ pub struct Transfer {
     pub seed: u8,
     pub token_len: u8,
     pub early: bool,
+    /// token length changes from request to request (fresh tokens need not
+    /// have one length)
+    #[serde(default)]
+    pub vary_token_len: bool,
 }
 
 #[derive(Clone, Debug, PartialEq, Eq, Hash, Serialize, Deserialize)]
@@ -48,7 +52,14 @@ impl Transfer {
         let mid = (idx as u16 + 1) * 1000 + step as u16 * 7 + self.seed as u16;
         ReqSpec {
             mtype: 0,
-            token: (0..self.token_len.min(8)).map(|i| (mid as u8) ^ i.wrapping_mul(37) ^ 0x80).collect(),
+            token: {
+                let len = if self.vary_token_len {
+                    (self.token_len as usize + step * 3) % 9
+                } else {
+                    self.token_len.min(8) as usize
+                };
+                (0..len as u8).map(|i| (mid as u8) ^ i.wrapping_mul(37) ^ 0x80).collect()
+            },
             mid,
             method: self.method,
             path: self.path.clone(),
@@ -267,8 +278,9 @@ pub fn check_set(_ctx: &Ctx, s: &ScriptSet, acc: &mut Acc) -> Result<(), Fail> {
 }
 
 fn transfer(upload: bool) -> BoxedStrategy<Transfer> {
-    (0u8..=2, 3u8..=5, any::<u8>(), any::<u8>(), 0u8..=8, any::<bool>())
-        .prop_map(move |(szx, exchanges, remainder, seed, token_len, early)| Transfer {
+    (0u8..=2, 3u8..=5, any::<u8>(), any::<u8>(), 0u8..=8, any::<bool>(), any::<bool>())
+        .prop_map(move |(szx, exchanges, remainder, seed, token_len, early, vary_token_len)| Transfer {
+            vary_token_len,
             upload,
             endpoint: 1,
             method: if upload { 3 } else { 1 },
